@@ -19,11 +19,11 @@ GEN = ("random well-formed histories from the seeded generator (tools/gen_engine
        "incl. equal values, expert nodes with scripted drivers; 8-60 actions each. ")
 
 PROPS = {
-    "C01": spec(["IncrVerif.Props.C01", "IncrVerif.Props.C01Global", "IncrVerif.Props.C01History", "IncrVerif.Props.C01MapRef"], [("static", 0.35), ("bind", 0.45), ("general", 0.2)], ["api", "read"],
+    "C01": spec(["IncrVerif.Props.C01", "IncrVerif.Props.C03Order", "IncrVerif.Props.C01Global", "IncrVerif.Props.C01History", "IncrVerif.Props.C01MapRef"], [("static", 0.35), ("bind", 0.45), ("general", 0.2)], ["api", "read"],
                 GEN + "C01 histories use only equality-respecting cutoffs and pure map_with_old machines (the property's proviso); "
                 "non-trivial = distinct history with at least two successful observer reads and one node function invocation",
                 c01_safe=True),
-    "C02": spec(["IncrVerif.Props.C02", "IncrVerif.Props.C01Global", "IncrVerif.Props.C01History"], [("bind", 0.5), ("general", 0.3), ("static", 0.2)], ["api", "ev", "read"],
+    "C02": spec(["IncrVerif.Props.C02", "IncrVerif.Props.C03Order", "IncrVerif.Props.C01Global", "IncrVerif.Props.C01History"], [("bind", 0.5), ("general", 0.3), ("static", 0.2)], ["api", "ev", "read"],
                 GEN + "both build profiles (in debug builds a glitch usually trips a debug assertion first; release builds show the "
                 "stale arguments); non-trivial = distinct history in which node functions ran",
                 builds=("debug", "release"), nq=200),
@@ -35,7 +35,7 @@ PROPS = {
                 "join/bind pattern (select one of several targets by the driver's input, always or only when new), add + remove by position, "
                 "duplicate dependencies on one child, make_stale, dependencies added from outside while observed, observer churn; "
                 "non-trivial = distinct history in which an expert node was recomputed"),
-    "C03": spec(["IncrVerif.Props.C03"], [("bind", 0.7), ("general", 0.3)], ["api", "ev", "read", "snap"],
+    "C03": spec(["IncrVerif.Props.C03", "IncrVerif.Props.C03Order"], [("bind", 0.7), ("general", 0.3)], ["api", "ev", "read", "snap"],
                 GEN + "both build profiles; generations are reconstructed from the trace (closure runs in order, consecutive node indices); "
                 "non-trivial = distinct history in which a bind closure ran at least twice",
                 builds=("debug", "release"), nq=200),
